@@ -146,6 +146,9 @@ func (ex *Exec) evalIdent(p *Path, id *ast.Ident) Value {
 func (ex *Exec) objValue(p *Path, obj types.Object, pos token.Pos) Value {
 	switch o := obj.(type) {
 	case *types.Var:
+		if r, ok := p.cells[o]; ok {
+			return ex.heapRead(p, "deref:"+sortToken(ex.c.SortOf(o.Type())), o.Type(), r)
+		}
 		if v, ok := p.vars[o]; ok {
 			return v
 		}
@@ -211,7 +214,23 @@ func (ex *Exec) evalUnary(p *Path, x *ast.UnaryExpr) Value {
 			if _, isStruct := v.Ty.Underlying().(*types.Struct); isStruct {
 				return ex.allocStruct(p, v, x.Pos())
 			}
+			obj, _ := ex.info.Uses[in].(*types.Var)
+			if obj != nil {
+				if r, ok := p.cells[obj]; ok {
+					return Value{r, types.NewPointer(obj.Type())}
+				}
+			}
 			r := ex.alloc(p, in.Name)
+			if obj != nil && !ex.inContract() && (obj.Pkg() == nil || obj.Parent() != obj.Pkg().Scope()) {
+				// from now on the local lives in the cell: reads and writes of the variable go through it
+				cv := ex.convert(p, v, obj.Type(), x.Pos())
+				ex.heapWrite(p, "deref:"+sortToken(ex.c.SortOf(obj.Type())), obj.Type(), r, cv.T)
+				if p.cells == nil {
+					p.cells = map[types.Object]string{}
+				}
+				p.cells[obj] = r
+				return Value{r, types.NewPointer(obj.Type())}
+			}
 			ex.heapWrite(p, "deref:"+sortToken(ex.c.SortOf(v.Ty)), v.Ty, r, v.T)
 			ex.note("&%s at %s: cell initialised with the current value (later writes to the variable are not reflected)", in.Name, ex.w.pos(x.Pos()))
 			return Value{r, types.NewPointer(v.Ty)}
